@@ -557,6 +557,41 @@ const FAULTS: &[(&str, &str, bool)] = &[
     ("index-unclosed", "{{ a[1 }}", false),
     ("index-empty", "{{ a[] }}", false),
     ("trailing-dot", "{{ a. }}", false),
+    // a separator missing late in an argument list, stray tokens after complete arguments, and inner
+    // keywords / closing tags of one block inside another (each confirmed rejected by the unchanged
+    // parser; `{% include 'p' a: 1 2 %}` is accepted by it and is not listed)
+    ("cycle-missing-comma-late", "{% cycle 'a', 'b' 'c' %}", false),
+    ("cycle-group-missing-comma", "{% cycle g: 'a' x %}", false),
+    ("cycle-missing-comma", "{% cycle 'a' 'b' %}", false),
+    ("when-missing-separator", "{% case a %}{% when 1, 2 3 %}{% endcase %}", false),
+    ("when-missing-separator-early", "{% case a %}{% when 1 2 %}{% endcase %}", false),
+    ("render-missing-comma", "{% render 'p', a: 1 b: 2 %}", false),
+    ("render-missing-first-comma", "{% render 'p' a: 1 %}", false),
+    ("filter-arguments-missing-comma", "{{ a | replace: 'x' 'y' }}", false),
+    ("filter-stray-token-after-argument", "{{ a | append: 'x' y }}", false),
+    ("for-stray-token-after-limit", "{% for i in a limit: 1 2 %}{% endfor %}", false),
+    ("for-stray-token-after-collection", "{% for i in a b %}{% endfor %}", false),
+    ("for-stray-token-after-reversed", "{% for i in a reversed x %}{% endfor %}", false),
+    ("tablerow-stray-token-after-cols", "{% tablerow i in a cols: 2 3 %}{% endtablerow %}", false),
+    ("assign-stray-token-after-filter-argument", "{% assign q = 1 | plus: 1 2 %}", false),
+    ("if-stray-token-after-comparison", "{% if a == 1 2 %}{% endif %}", false),
+    ("if-missing-operator-between-atoms", "{% if a == 1 b == 2 %}{% endif %}", false),
+    ("case-stray-token-after-target", "{% case a b %}{% when 1 %}{% endcase %}", false),
+    ("capture-stray-token", "{% capture q 1 %}{% endcapture %}", false),
+    ("increment-stray-token", "{% increment q 1 %}", false),
+    ("render-with-stray-token", "{% render 'p' with a as b c %}", false),
+    ("render-for-stray-token", "{% render 'p' for a as b c %}", false),
+    ("elsif-inside-unless", "{% unless a %}x{% elsif b %}y{% endunless %}", false),
+    ("elsif-inside-for", "{% for i in a %}{% elsif b %}{% endfor %}", false),
+    ("elsif-inside-case", "{% case a %}{% when 1 %}{% elsif b %}{% endcase %}", false),
+    ("elsif-inside-capture", "{% capture q %}{% elsif b %}{% endcapture %}", false),
+    ("when-inside-if", "{% if a %}{% when 1 %}{% endif %}", false),
+    ("else-inside-capture", "{% capture q %}{% else %}{% endcapture %}", false),
+    ("else-inside-ifchanged", "{% ifchanged %}{% else %}{% endifchanged %}", false),
+    ("endfor-inside-if-in-for", "{% for i in a %}{% if b %}{% endfor %}{% endif %}", false),
+    ("endunless-closing-if", "{% if a %}{% endunless %}", false),
+    ("endif-closing-unless", "{% unless a %}{% endif %}", false),
+    ("endtablerow-closing-for", "{% for i in a %}{% endtablerow %}", false),
 ];
 
 fn rejection(ctx: &mut Ctx, ps: &Parsers) {
